@@ -34,6 +34,8 @@ def term_source(pid: str, tier: str):
     out += [("MULTIVAR", t) for t in F.multivar_terms(tier)]
     out += [("BINBIN", t) for t in F.binbin_terms(tier)]
     out += [("NAMES", t) for t in F.names_terms(tier)]
+    out += [("SCALE", t) for t in F.scale_terms(tier)]
+    out += [("TWICE", t) for t in F.twice_terms(tier)]
     if pid in ("C01", "C02", "C08", "C17"):
         out += [("ARITH", t) for t in F.arith_terms(tier)]
     seen = set()
@@ -76,6 +78,8 @@ def modes_for(t, env):
         out.append(("tree-float", tf, ef, False))
     if has_repeated_inner(t):
         out.append(("dag", t, env, True))
+    if A.operator_buildable(t) and M.size(t) >= 2:
+        out.append(("operators", t, env, "ops"))
     return out
 
 
@@ -317,6 +321,60 @@ def extreme_executions(st: Stats, pid: str):
                                       f"{label} at x={a!r}, y={b!r}: exact value {want!r} is inside the double range but evaluation gave {o}"))
 
 
+def extreme_transcendental(st: Stats, pid: str):
+    """Logarithms, exponentials, powers and roots at arguments next to the ends of the double range, judged against
+    a 200-bit evaluation: whenever the true value lies in the normal double range the result must be a finite double
+    within 16 ulp of it (no DomainError, OverflowError, inf)."""
+    import mpmath
+    x = M.V("x")
+    cases = []
+    big = [1.5e308, 1.7976931348623157e308, 1e300, 1e-300, 2.2250738585072014e-308, 1e-308, 5e-324, 1e-323, 1e160, 1e-160]
+    for b in (M.DEFAULT_BASE, 2, 3, 0.5, 10, 1.5):
+        for v in big:
+            cases.append((M.Log(x, b), v))
+    for b, vals in ((M.DEFAULT_BASE, (700, 709.5, -700, -708, 500.5)), (2, (800, 1000, 1023.5, -1000, -1021)),
+                    (0.5, (-1000, 1000, -800.25)), (1.5, (900, 1700, -1700)), (10, (300, 308, -300, -307)), (3, (600, -600))):
+        for v in vals:
+            cases.append((M.Exp(x, b), v))
+    for n in (2, 3, 4, 5, 10, 101):
+        for v in (1.7976931348623157e308, 1e300, 1e-300, 5e-324, 2.2250738585072014e-308):
+            cases.append((M.Root(x, n), v))
+            if n % 2 == 1:
+                cases.append((M.Root(x, n), -v))
+    for v, w in ((1e300, 1.02), (1e-300, 1.02), (1e150, 2.0), (1e-150, 2.0), (2.0, 1000.0), (0.5, 1000.0), (10.0, -300.0), (1e100, -3.0)):
+        cases.append((M.Pow(x, M.C(w)), v))
+    for v in (1e22, 1e300, 1.7976931348623157e308, 1e-300):
+        cases.append((M.Sin(x), v))
+        cases.append((M.Cos(x), v))
+    with mpmath.workprec(300):
+        for term, v in cases:
+            try:
+                true = RS.hp_eval(term, {"x": mpmath.mpf(v)})
+            except RS.Undefined:
+                continue
+            st.inc("extreme_states")
+            if true != 0 and not (mpmath.mpf(2.2250738585072014e-308) <= abs(true) <= mpmath.mpf(1.7976931348623157e308)):
+                st.inc("extreme_skipped_range")
+                continue
+            o = A.outcome(lambda: A.build(term).at(v))
+            st.inc("transitions")
+            st.inc("extreme_executions")
+            ok = o[0] == "val" and A.is_finite_real(o[1])
+            if ok and pid == "C01":
+                err = abs(mpmath.mpf(o[1]) - true)
+                scale = abs(true) if term[0] not in ("sin", "cos") else mpmath.mpf(1)
+                ulps = mpmath.mpf(16)
+                if term[0] == "root":       # x ** (1/n): the rounded exponent 1/n costs |ln x| / n ulp
+                    ulps += 2 * abs(mpmath.log(abs(mpmath.mpf(v)))) / int(term[2])
+                if term[0] == "exp" and term[2] == M.DEFAULT_BASE:   # math.e ** x: the rounded base costs |x| ulp
+                    ulps += 2 * abs(mpmath.mpf(v))
+                ok = err <= scale * ulps * mpmath.mpf(2) ** -53
+            if not ok:
+                st.violation(case(term, {"x": v}, "tree", "at(number)", mpmath.nstr(true, 17), o,
+                                  f"{M.show(term)} at x={v!r}: true value {mpmath.nstr(true, 17)} is inside the double range "
+                                  f"but evaluation gave {o}"))
+
+
 # ---------------------------------------------------------------- runner
 CHECKS = {}
 
@@ -376,6 +434,7 @@ def run_sweep(pid, tier, seed, fn, rule, assumptions, source=None, chunk=150):
     st = pmap_stats(_worker_factory(fn), items, chunk=chunk, name=f"sweep_{pid}")
     if pid in ("C01", "C02", "C17"):
         extreme_executions(st, pid)
+        extreme_transcendental(st, pid)
     run.absorb(st)
     c = st.c
     cov = {
